@@ -305,7 +305,7 @@ func runC09(c *kit.Ctx) {
 		if ev == nil || !kit.IsNilConst(kit.Root(ev)) {
 			return
 		}
-		leaves := []ssa.Value{kit.Root(r.Results[0])}
+		leaves := []ssa.Value{kit.Root(kit.Res(r, 0))}
 		if ph, ok := leaves[0].(*ssa.Phi); ok {
 			leaves = kit.PhiLeaves(ph)
 		}
@@ -410,7 +410,7 @@ func runC09(c *kit.Ctx) {
 		okRet := true
 		kit.Instrs(markU, func(in ssa.Instruction) {
 			if r, ok := in.(*ssa.Return); ok {
-				v := kit.Strip(r.Results[0])
+				v := kit.Strip(kit.Res(r, 0))
 				ph, isPhi := v.(*ssa.Phi)
 				if !isPhi {
 					okRet = false
